@@ -26,6 +26,12 @@ constexpr nterm<int> root("root"); constexpr nterm<int> list("list");
         root(error, ';') >= val(-1), \
         list() >= val(0), \
         list(list, 'x') >= [](int sum, skip){ return sum + 1; })'''),
+ 'nul': dict(alphabet=['a', '\0', 'b', ' '], code=r'''
+constexpr nterm<int> root("root");
+#define PARSER_ARGS root, terms('a', '\0'), nterms(root), rules( \
+        root() >= val(0), \
+        root(root, 'a') >= [](int n, skip){ return n * 2 + 1; }, \
+        root(root, '\0') >= [](int n, skip){ return n * 2; })'''),
  'numbers': dict(alphabet=['1', '0', ',', ' ', 'x', '\n'], code=r'''
 constexpr int to_int(std::string_view sv) { int sum = 0; for (auto c : sv) { sum *= 10; sum += c - '0'; } return sum; }
 constexpr char number_pattern[] = "[1-9][0-9]*";
